@@ -41,7 +41,9 @@ structure Cfg where
   esc0     : Char                          -- generator: `_escaped_quote_end[0]` / `_escaped_identifier_end[0]`
   esc1     : Char                          -- generator: `_escaped_quote_end[1]` / `_escaped_identifier_end[1]`
   escSeq   : List (Char × (Char × Char))   -- generator's dialect ESCAPED_SEQUENCES (1 char ↦ 2 chars)
-  supports : Bool                          -- generator's dialect STRINGS_SUPPORT_ESCAPED_SEQUENCES (false for identifiers)
+  supports : Bool                          -- generator's dialect STRINGS_SUPPORT_ESCAPED_SEQUENCES (false for identifiers;
+                                           -- BYTE_STRINGS_SUPPORT_ESCAPED_SEQUENCES for byte-string pairings)
+  genBsEsc : Bool := false                 -- generator: `"\\" in self.dialect.tokenizer_class.STRING_ESCAPES` (rawstring_sql)
 deriving Repr, DecidableEq
 
 def Cfg.isEsc (c : Cfg) (x : Char) : Bool := c.escapes.contains x
@@ -66,6 +68,23 @@ def escapeStr (c : Cfg) (v : List Char) : List Char := v.flatMap (img c)
 
 /-- `Generator.identifier_sql`'s `text.replace(self._identifier_end, self._escaped_identifier_end)` -/
 def identifierSql (c : Cfg) (v : List Char) : List Char := v.flatMap (escQ c)
+
+/-- `escape_str(..., escape_backslash=False)`: the ESCAPED_SEQUENCES map skips the backslash -/
+def imgNoBs (c : Cfg) (ch : Char) : List Char := if ch = '\\' then escQ c ch else img c ch
+
+/-- `Generator.bytestring_sql` between BYTE_START and BYTE_END: `escape_str(this, escape_backslash=False, …)` on a byte pairing
+    (`gq` = BYTE_END, `esc0 esc1` = `_escaped_byte_quote_end`, `supports` = BYTE_STRINGS_SUPPORT_ESCAPED_SEQUENCES) -/
+def byteSql (c : Cfg) (v : List Char) : List Char := v.flatMap (imgNoBs c)
+
+/-- `Generator.rawstring_sql` between QUOTE_START and QUOTE_END: backslashes doubled first when the backslash is a string
+    escape, then `escape_str(string, escape_backslash=False)` -/
+def rawSql (c : Cfg) (v : List Char) : List Char :=
+  (if c.genBsEsc then v.flatMap (fun x => if x = '\\' then ['\\', '\\'] else [x]) else v).flatMap (imgNoBs c)
+
+/-- `rawstring_sql` writes what `escape_str` writes -/
+def wfRaw (c : Cfg) : Bool :=
+  c.q != '\\' && c.gq != '\\'
+  && (if c.genBsEsc then seqOf c '\\' == some ('\\', '\\') else seqOf c '\\' == none)
 
 /-! ### tokenizer side: `_extract_string` -/
 
@@ -186,16 +205,6 @@ def wfFast (c : Cfg) : Bool :=
   && (c.isQuote c.q || !c.isEsc c.q || c.escapes.all (· == c.q))
   && c.q != '\\'
 
-/-- What the translator extracts per dialect: one `Cfg` per tokenizer core that runs (Athena runs two), paired with
-    "the generator's opening delimiter is a one-character-terminated quote/identifier of that tokenizer";
-    for comments: (`_COMMENTS["/*"] == "*/"`, NESTED_COMMENTS) per core. -/
-structure DialectEntry where
-  name     : String
-  strCfgs  : List (Bool × Cfg)
-  idCfgs   : List (Bool × Cfg)
-  comments : List (Bool × Bool)
-deriving Repr, DecidableEq
-
 /-- every pairing in `l` (except the listed positions) is non-degenerate and satisfies `p`; `l` is not empty -/
 def cfgsOk (p : Cfg → Bool) (l : List (Bool × Cfg)) (skip : List Nat) : Bool :=
   !l.isEmpty && l.zipIdx.all fun ((ok, c), i) => skip.contains i || (ok && p c)
@@ -214,11 +223,11 @@ def exBase : Cfg :=
 /-- MySQL strings: `'`, `"` and backslash escape, ESCAPE_FOLLOW_CHARS, escape sequences, quote doubled -/
 def exMysql : Cfg :=
   { q := '\'', escapes := ['"', '\'', '\\'], quotes := ['"', '\''], follow := ['%', '0', 'Z', '_', 'b', 'n', 'r', 't'],
-    unesc := bsUnesc, gq := '\'', esc0 := '\'', esc1 := '\'', escSeq := bsEscSeq, supports := true }
+    unesc := bsUnesc, gq := '\'', esc0 := '\'', esc1 := '\'', escSeq := bsEscSeq, supports := true, genBsEsc := true }
 /-- BigQuery strings: backslash is the only escape, the quote is written `\'` -/
 def exBigquery : Cfg :=
   { q := '\'', escapes := ['\\'], quotes := ['"', '\''], follow := [], unesc := bsUnesc, gq := '\'', esc0 := '\\', esc1 := '\'',
-    escSeq := bsEscSeq, supports := true }
+    escSeq := bsEscSeq, supports := true, genBsEsc := true }
 /-- T-SQL bracket identifiers: `[` … `]`, `]` doubled -/
 def exBracketIdent : Cfg :=
   { q := ']', escapes := [']'], quotes := ['"', '\''], follow := [], unesc := [], gq := ']', esc0 := ']', esc1 := ']',
@@ -232,6 +241,12 @@ def exAthenaMerged : Cfg :=
 def exClickhouseIdent : Cfg :=
   { q := '"', escapes := ['"', '\\'], quotes := ['\''], follow := [],
     unesc := bsUnesc ++ [(('\\', '0'), Char.ofNat 0)], gq := '"', esc0 := '"', esc1 := '"', escSeq := [], supports := false }
+
+/-- PostgreSQL `e'…'` byte strings as of the pinned commit: the tokenizer's BYTE_STRING_ESCAPES are `'` and backslash, the
+    generator maps escape sequences but (escape_backslash=False) never the backslash itself -/
+def exPostgresByte : Cfg :=
+  { q := '\'', escapes := ['\'', '\\'], quotes := ['\''], follow := [], unesc := bsUnesc, gq := '\'', esc0 := '\'', esc1 := '\'',
+    escSeq := bsEscSeq, supports := true }
 
 /-! ### comments -/
 
